@@ -571,7 +571,9 @@ pub struct Fixture {
     declared: fn() -> Vec<(&'static str, V)>,
     ext: &'static [(&'static str, &'static str)],
     /// (`evt!`, `format!`, `emit!` through a capturing runtime, `tpl!` when the literal is legal there)
-    observe: fn() -> (Seen, String, Vec<Seen>, Option<String>),
+    /// … and, last, what a span created with `new_span!` on the same literal completes with: (`span_name`, the text of
+    /// the completion event's template)
+    observe: fn() -> (Seen, String, Vec<Seen>, Option<String>, (String, String)),
     /// `std::format!` on the same literal, where std accepts it
     std: Option<fn() -> String>,
 }
@@ -610,7 +612,22 @@ mod fixtures {
                             .with_emitter(emit::emitter::from_fn(|evt| emitted.borrow_mut().push(see(&evt))));
                         emit::emit!(rt: &rt, $lit $(, $($rest)*)?);
                     }
-                    (seen, formatted, emitted.into_inner(), fx!(@tpl $tpl $lit))
+                    let span: RefCell<(String, String)> = RefCell::new(Default::default());
+                    {
+                        use emit::Props;
+                        let rt = emit::runtime::Runtime::new().with_emitter(emit::emitter::from_fn(|evt| {
+                            *span.borrow_mut() = (
+                                evt.props().pull::<emit::Str, _>("span_name").map(|n| n.to_string()).unwrap_or_default(),
+                                evt.tpl().to_string(),
+                            )
+                        }));
+                        let (mut guard, frame) = emit::new_span!(rt: &rt, $lit $(, $($rest)*)?);
+                        frame.call(move || {
+                            guard.start();
+                            drop(guard);
+                        });
+                    }
+                    (seen, formatted, emitted.into_inner(), fx!(@tpl $tpl $lit), span.into_inner())
                 },
                 std: fx!(@std $std $lit),
             }
@@ -711,7 +728,7 @@ fn run_macro(line: &str) -> String {
         if fixture_case(i, f) != sx.to_string() {
             return None;
         }
-        let (evt, formatted, emitted, tpl) = (f.observe)();
+        let (evt, formatted, emitted, tpl, span) = (f.observe)();
         let out = format!("parts={} msg={}", evt.parts, hcommon::hex_atom(evt.msg.as_bytes()));
         let mut fail = None;
         let mut declared: Vec<(String, String)> = (f.declared)().iter().map(|(k, v)| (k.to_string(), display_val(v))).collect();
@@ -724,6 +741,9 @@ fn run_macro(line: &str) -> String {
             fail = Some(format!("emit!-differs-from-evt!({:?})", emitted));
         } else if tpl.as_ref().map(|t| *t != evt.parts).unwrap_or(false) {
             fail = Some(format!("tpl!-differs-from-evt!({})", tpl.unwrap()));
+        } else if span.0 != span.1 {
+            // the span-name literal the macro derives from the template is the template's own text (holes as `{label}`)
+            fail = Some(format!("span-name-differs-from-the-template({}|{})", hcommon::hex(span.0.as_bytes()), hcommon::hex(span.1.as_bytes())));
         } else if let Some(std) = f.std {
             // a macro-built template renders like the same literal given to std's formatting macros
             let expected = std();
